@@ -33,6 +33,20 @@ def dups(draw, g, type_only=None):
     return [[draw(st.sampled_from(idx)), draw(st.integers(0, n + 3))] for _ in range(k)]
 
 
+def restated_values(case):
+    """True if a re-stated statement of the case is (also) a re-stated VALUE statement - the known finding C01-DUPVALUE: any
+    statement whose predicate is not the instantiation property, or a typing statement whose class is itself a typed node (the
+    statement is then an incoming 'instantiation' link of that node, counted per statement when inverse paths are on)"""
+    g = gg.expand(case["g"])
+    tr = g["triples"]
+    typed = {t[0][1] for t in tr if t[1] == g["inst_prop"]}
+    for i, _ in case.get("dups") or []:
+        t = tr[i % len(tr)]
+        if t[1] != g["inst_prop"] or t[2][1] in typed:
+            return True
+    return False
+
+
 def base_kwargs(case):
     g = gg.expand(case["g"])
     triples = triples_from_json(g["triples"])
